@@ -99,3 +99,29 @@ Theorem C16_lost_leader_not_chosen_again : forall db rows eps k,
   choose_endpoint db (rotate (rows :: eps)) = Some k -> k < length eps.
 Proof. exact lost_leader_not_chosen_again. Qed.
 Print Assumptions C16_lost_leader_not_chosen_again.
+
+(** "silent peer detected by the inactivity probe" (Cli/Probe.v): a peer from
+    which nothing comes for two inactivity timeouts is dropped - whatever the
+    application does meanwhile, in particular however many of its calls run
+    into their own deadlines.  In the variant where such a call counts as
+    traffic from the peer a busy application keeps a silent peer for ever
+    (the variant is what a generated fact about client.go: transact excludes
+    on every run). *)
+From LOV Require Import Cli.ProbeProofs.
+
+Theorem C16_silent_peer_is_dropped : forall T, 1 <= T -> forall es,
+  silent es -> 2 * T <= elapses es -> dropped (prun T false pinit es) = true.
+Proof. exact silent_peer_is_dropped. Qed.
+Print Assumptions C16_silent_peer_is_dropped.
+
+Theorem C16_deadline_as_traffic_refuted : forall T, 2 <= T ->
+  forall n, silent (busy_schedule n) /\ elapses (busy_schedule n) = n /\
+            dropped (prun T true pinit (busy_schedule n)) = false.
+Proof. exact deadline_as_traffic_refuted_full. Qed.
+Print Assumptions C16_deadline_as_traffic_refuted.
+
+(** the premises are met, and traffic does postpone the drop *)
+Example C16_probe_runs :
+  dropped (prun 3 false pinit [Elapse; AppDeadline; Elapse; Elapse; AppDeadline; Elapse; Elapse; Elapse]) = true /\
+  dropped (prun 3 false pinit [Elapse; Elapse; Traffic; Elapse; Elapse; Traffic; Elapse; Elapse; EchoReply; Elapse; Elapse]) = false.
+Proof. split; vm_compute; reflexivity. Qed.
